@@ -50,6 +50,7 @@ pub fn reference(uri: &str, text: &str, q: &Query, line: u32, ch: u32) -> Arc<Re
             Step::Open { doc: 0, text: text.to_string() },
             Step::Req { doc: 0, q: q.clone(), line, ch, class: PosClass::Inside },
         ],
+        abrupt_end: false,
     };
     let out = crate::sim::execute(&h.to_messages(), &SchedSpec::RoundRobin);
     let ans = if out.thread_panics > 0 {
